@@ -111,7 +111,16 @@ def _job(args):
             if p.returncode:
                 return ('silent', spec['id'], 'skipped',
                         'patch does not apply to this tree')
-            found = _run_rules(pid, d)
+            try:
+                found = _run_rules(pid, d)
+            except Exception as e:
+                if spec.get('expected_inconclusive') and \
+                        type(e).__name__ == 'AnalysisError':
+                    # recorded in the refactoring's meta.json with a reason:
+                    # the patch removes a function the rules are anchored in
+                    return ('silent', spec['id'], 'skipped',
+                            'inconclusive by design: ' + str(e)[:120])
+                raise
             return ('silent', spec['id'], 'findings', sorted(
                 {f[0] + ' | ' + f[1] for f in found}))
         else:
@@ -153,7 +162,15 @@ def run_for_property(pid, report, jobs=16, seed=0, repo=None, strict=None,
     rd = os.path.join(VERIF, 'refactorings')
     for rid in sorted(os.listdir(rd)) if os.path.isdir(rd) else []:
         if os.path.exists(os.path.join(rd, rid, 'patch.diff')):
-            refs.append({'id': rid})
+            r = {'id': rid}
+            mp = os.path.join(rd, rid, 'meta.json')
+            if os.path.exists(mp):
+                try:
+                    r['expected_inconclusive'] = bool(json.load(
+                        open(mp)).get('expected_inconclusive'))
+                except ValueError:
+                    pass
+            refs.append(r)
     work = [('mutant', m, repo, pid) for m in mine] + \
            [('seed', x, repo, pid) for x in seeds] + \
            [('silent', s, repo, pid) for s in silent] + \
